@@ -1075,7 +1075,13 @@ func runServer(udp bool, peers, first []string) error {
 						}
 						p.Send(batch) //nolint:errcheck
 					}
-					p.Send(tagged(byte(i+1), k, "debug", true, nil, 0).Bytes()) //nolint:errcheck
+					if i%2 == 1 {
+						// a peer that keeps talking without ever saying a frame (a terminal, a wrongly configured
+						// device): rejected input, received all the same - the link is not idle
+						p.Send([]byte{0x11, 0x22, byte(k) & 0x7F}) //nolint:errcheck
+					} else {
+						p.Send(tagged(byte(i+1), k, "debug", true, nil, 0).Bytes()) //nolint:errcheck
+					}
 					k++
 				}
 				r.keepUntil = time.Now()
